@@ -44,6 +44,11 @@ class Metrics:
         return out
 
     def report_lossy(self, rep, pre: str, rule: str) -> None:
+        for msg in getattr(self.mt, "registry_problems", []):
+            rep.chk.ob(pre + rule, "opfython.math.distance", "DISTANCES", False, msg, file=self.mt.mi.relpath, line=1)
+        self._report_lossy(rep, pre, rule)
+
+    def _report_lossy(self, rep, pre: str, rule: str) -> None:
         for n in sorted(self.registry):
             if self.registry[n] in self.mt.mi.functions and self.translated(n) is None:
                 fi = self.mt.mi.functions[self.registry[n]]
